@@ -1,5 +1,6 @@
 import PGV.Spec.Lang
 import PGV.Props.Facts
+import PGV.Proofs.LangEq
 
 /-!
 # C05 — format and content rules accept exactly their documented language
@@ -54,6 +55,12 @@ theorem C05_phone (s : Bytes) : Model.Lang.phoneRe s = phone s := by
     | a :: c :: rest, hne =>
       have ha : a ≠ 49 := fun e => hne c rest (by rw [e])
       simp [ha]
+
+/-- `^\d+\.\d+$`: digits, exactly one `.`, digits — for every byte string (the historical defect was an unescaped dot) -/
+theorem C05_float (s : Bytes) : Model.Lang.floatRe s = Spec.Lang.float s := PGV.Proofs.LangEq.float_eq s
+
+/-- `(^\d{15}$)|(^\d{18}$)|(^\d{17}(\d|X|x)$)` -/
+theorem C05_idcard (s : Bytes) : Model.Lang.idCardRe s = idcard s := PGV.Proofs.LangEq.idcard_eq s
 
 /-! ### the layout builder `GetTimeFmt` -/
 
